@@ -388,3 +388,43 @@ Lemma auto_tag_after_string_fails :
   snd (drun nat TagRepaired (no_dirs nat) [SaveDir 0 (Some (TStr 0)) 10; SaveDir 0 None 11; LoadDir 0])
   = [DSaved (TStr 0); DSaved (TInt 1); DLoaded [(TStr 0, 10); (TInt 1, 11)]].
 Proof. split; vm_compute; reflexivity. Qed.
+
+(* ---- part E: dtype of the packed array, dispatch by kind ------------------------------------------ *)
+Lemma through_by_kind A v f wa d : through A v f wa d = through_k A v (kind_of f) wa d.
+Proof. destruct f; cbn; try reflexivity; destruct d; try reflexivity; unfold text_ndmin; destruct (wa && text_axis_ndmin2 v); reflexivity. Qed.
+
+Section TypedP.
+  Variable A : Type.
+  Variable cast : dty -> A -> A.
+  Hypothesis cast_mono : forall t t' x, dt_le t t' = true -> fits A cast t x -> fits A cast t' x.
+  Lemma dt_le_join_l a b : dt_le a (dt_join a b) = true.
+  Proof. destruct a, b; reflexivity. Qed.
+  Lemma dt_le_join_r a b : dt_le b (dt_join a b) = true.
+  Proof. destruct a, b; reflexivity. Qed.
+  Lemma map_fits t l : Forall (fits A cast t) l -> map (cast t) l = l.
+  Proof. induction 1 as [|x l Hx _ IH]; cbn; [reflexivity|]. now rewrite Hx, IH. Qed.
+  Lemma Forall_mono t t' l : dt_le t t' = true -> Forall (fits A cast t) l -> Forall (fits A cast t') l.
+  Proof. intros Hle H. induction H; constructor; [eapply cast_mono; eauto | assumption]. Qed.
+  Lemma map_map_fits t rows : Forall (fits A cast t) (concat rows) -> map (map (cast t)) rows = rows.
+  Proof.
+    induction rows as [|r rows IH]; cbn; [reflexivity|]. intro H. apply Forall_app in H. destruct H as [H1 H2].
+    now rewrite map_fits, IH.
+  Qed.
+  Lemma pack_t_lossless td ta ax d : Forall (fits A cast td) (flat A d) -> Forall (fits A cast ta) ax ->
+    pack_t A cast (dt_join td ta) ax d = pack A ax d.
+  Proof.
+    intros Hd Ha. unfold pack_t.
+    apply (Forall_mono _ _ _ (dt_le_join_l td ta)) in Hd. apply (Forall_mono _ _ _ (dt_le_join_r td ta)) in Ha.
+    rewrite (map_fits _ _ Ha). destruct d as [x|l|w rows]; cbn [amap flat] in *.
+    - reflexivity.
+    - now rewrite (map_fits _ _ Hd).
+    - now rewrite (map_map_fits _ _ Hd).
+  Qed.
+End TypedP.
+
+Lemma zcast_mono : forall t t' x, dt_le t t' = true -> fits _ zcast t x -> fits _ zcast t' x.
+Proof. intros [] [] [a b]; cbn; unfold fits; cbn; intros H1 H2; try discriminate H1; try exact H2; reflexivity. Qed.
+Lemma pack_axis_dtype_loses :
+  pack_t _ zcast DReal [(1, 0)%Z; (2, 0)%Z] (A2 1 [[(5, 7)%Z]; [(6, 8)%Z]]) = Some (A2 2 [[(1, 0); (5, 0)]; [(2, 0); (6, 0)]]%Z) /\
+  pack_t _ zcast (dt_join DCplx DReal) [(1, 0)%Z; (2, 0)%Z] (A2 1 [[(5, 7)%Z]; [(6, 8)%Z]]) = Some (A2 2 [[(1, 0); (5, 7)]; [(2, 0); (6, 8)]]%Z).
+Proof. split; reflexivity. Qed.
